@@ -108,6 +108,18 @@ def c_mathbox(m):
 
 
 @_c('inline')
+def c_opendecl(m):
+    # a brace-less declaration that stays in force until the enclosing group / unit ends
+    return '\\small %s ' % m()
+
+
+@_c('table')
+def c_tabdecl(m):
+    # brace-less declarations in cells that are not the last of their row
+    return '\\begin{tabular}{lll}\\bfseries %s&\\itshape %s&%s\\\\ %s&\\small %s&%s\\end{tabular}' % (m(), m(), m(), m(), m(), m())
+
+
+@_c('inline')
 def c_loneapos(m):
     # an apostrophe (and a backquote) that is alone in its run of text, between two elements
     return "\\emph{%s}'\\textbf{%s} \\emph{%s}`\\textbf{%s} " % (m(), m(), m(), m())
@@ -253,7 +265,7 @@ CONTEXTS = {
 CONTAINERS = ['item', 'quote', 'cell', 'footnote', 'fontarg', 'secbody']
 
 
-SMALL = ['words', 'par', 'textbf', 'itemize', 'tabular', 'math', 'footnote', 'verb', 'trigger', 'display', 'labelref',
+SMALL = ['words', 'par', 'opendecl', 'textbf', 'itemize', 'tabular', 'math', 'footnote', 'verb', 'trigger', 'display', 'labelref',
          'subsection', 'paragraph', 'tabempty', 'descbracket']
 
 
@@ -367,6 +379,10 @@ def structure_problems(doc):
             problems.append('paragraph inside paragraph')
         if inpar and lo <= lvl <= hi:
             problems.append('sectioning unit %s inside a paragraph' % n.nodeName)
+        if n.nodeName == 'ArrayCell' and getattr(n.parentNode, 'nodeName', None) != 'ArrayRow':
+            problems.append('table cell whose parent is %s, not a row' % getattr(n.parentNode, 'nodeName', None))
+        if n.nodeName == 'ArrayRow' and getattr(n.parentNode, 'nodeName', None) not in ('tabular', 'array', 'tabular*', 'tabularx', 'longtable'):
+            problems.append('table row whose parent is %s, not a table' % getattr(n.parentNode, 'nodeName', None))
         if lo <= lvl <= hi:
             for c in n.childNodes:
                 if c.nodeType == Node.TEXT_NODE:
